@@ -41,6 +41,12 @@ ASSUMPTIONS = [
     "SDP - silence, lost bytes/reports (detectable by count), short reports, corrupted or error status words (no checksum on data)",
     "success indication of an mboot call = no exception, a truthy/non-None return value and status_code == SUCCESS (status_code is the error channel when cmd_exception is off)",
     "zero-length SDP writes, trust-provisioning/EL2GO commands and the BUSPAL/SDIO/CAN transports are not generated",
+    "reset: a device may reset before its response has left it, so 'no response' is read as done by the protocol's hosts; when the fault is the loss of "
+    "that response (missing report / silence) the reported success is not compared with the status the device would have sent (a refusal that is lost "
+    "as well is a second, masked fault); any response that does arrive is judged as for every other command",
+    "SDP UART bit flips are injected into the compared status words except the flips that produce the command's success word itself out of a refusal "
+    "word (0x128A8A13 -> 0x128A8A12): on a stream without checksum that is indistinguishable from a genuine success answer",
+    "what a device 'received' in a faulted call is what it took in during the data phases it opened for that call (not what earlier calls left in the same sink)",
 ]
 FLOORS = {"fault:fired": 0.075, "multipacket": 0.025, "t:mb_serial": 0.04, "t:mb_hid": 0.025, "t:sdp_uart": 0.005, "t:sdp_hid": 0.005, "faultfree": 0.005,
           "fault:nak": 0.00025, "fault:abort": 0.00025, "outcome:success": 0.01, "outcome:raised": 0.05, "device_error_status": 0.005}
@@ -216,9 +222,9 @@ class MbOp:
     """Description of one McuBoot API call: how to call it, which command packets the device must see,
     what the device must hold afterwards (writes) or what must be returned (reads)."""
 
-    def __init__(self, name, kind, tag, call, cmds=None, truth=None, effect=None, received=None, region=None, has_data=False):
+    def __init__(self, name, kind, tag, call, cmds=None, truth=None, effect=None, region=None, has_data=False):
         self.name, self.kind, self.tag, self.call = name, kind, tag, call
-        self.cmds, self.truth, self.effect, self.received, self.region, self.has_data = cmds, truth, effect, received, region, has_data
+        self.cmds, self.truth, self.effect, self.region, self.has_data = cmds, truth, effect, region, has_data
 
 
 def _mem_effect(core, op, data):
@@ -278,7 +284,7 @@ _reg("receive_sb_file", "write", M.C_RECEIVE_SB,
      lambda mb, op: mb.receive_sb_file(_data(op["data"]), check_errors=bool(op.get("check_errors", False))),
      cmds=lambda op: [(M.C_RECEIVE_SB, 1, (len(_data(op["data"])),))],
      effect=lambda core, op: (bool(core.sb_files) and bytes(core.sb_files[-1]) == _data(op["data"]), "SB file received by the device differs"),
-     received=lambda core, op: (bytes(core.sb_files[-1]) if core.sb_files else b"", _data(op["data"])), has_data=True)
+     has_data=True)
 _reg("flash_program_once", "write", M.C_PROGRAM_ONCE,
      lambda mb, op: mb.flash_program_once(op["index"], _data(op["data"])),
      cmds=lambda op: [(M.C_PROGRAM_ONCE, 0, (op["index"], len(_data(op["data"]))) + _w32(_data(op["data"])))],
@@ -318,7 +324,7 @@ _reg("kp_set_user_key", "write", M.C_KEY_PROVISIONING,
      lambda mb, op: mb.kp_set_user_key(op["key_type"], _data(op["data"])),
      cmds=lambda op: [(M.C_KEY_PROVISIONING, 1, (1, op["key_type"], len(_data(op["data"]))))],
      effect=lambda core, op: (bytes(core.user_keys.get(op["key_type"], b"")) == _data(op["data"]), "user key received differs"),
-     received=lambda core, op: (bytes(core.user_keys.get(op["key_type"], b"")), _data(op["data"])), has_data=True)
+     has_data=True)
 _reg("kp_write_key_store", "write", M.C_KEY_PROVISIONING,
      lambda mb, op: mb.kp_write_key_store(_data(op["data"])),
      cmds=lambda op: [(M.C_KEY_PROVISIONING, 1, (5, 0, len(_data(op["data"]))))],
@@ -436,7 +442,7 @@ def _is_prefix_write(pre: bytes, post: bytes, data: bytes) -> bool:
 def mb_pre(sess: MbSession, op: dict) -> dict:
     """What has to be known before the call: the truth for reads, the old content for writes, log marks."""
     pre = {"log": len(sess.core.log), "reads": sess.link.reads, "writes": sess.link.writes, "delivered": sess.link.bytes_delivered,
-           "image": len(sess.core.loaded_image), "sb": len(sess.core.sb_files)}
+           "image": len(sess.core.loaded_image), "sb": len(sess.core.sb_files), "in_phases": len(sess.core.in_phases)}
     if op["op"] == "open":
         return pre
     d = MB_OPS[op["op"]]
@@ -533,6 +539,11 @@ def _short(v) -> str:
     return r if len(r) < 120 else r[:120] + "..."
 
 
+def _response_lost(sess, k: int) -> bool:
+    """The fault is a loss (missing report / the device falls silent) and no complete response of operation k reached the host."""
+    return sess.link.plan.kind in ("missing", "truncate") and k not in sess.link.resp_delivered
+
+
 def _positive(kind: str, v) -> bool:
     return (v is not None) if kind == "read" else (v is True)
 
@@ -566,6 +577,11 @@ def mb_check_fault(o: Oracle, sess: MbSession, k: int, op: dict, res: Res, pre: 
             v = res.value
             same = bytes(v) == bytes(want) if isinstance(want, (bytes, bytearray)) and isinstance(v, (bytes, bytearray)) else v == want
             o.check("F1", same, "read:" + name, "%s: success reported with %s, the device holds %s" % (where, _short(v), _short(want)))
+        elif name == "reset" and _response_lost(sess, k):
+            # A reset may take effect before the response has left the device, so for this command alone the protocol's hosts
+            # (the code under test says so in its log text) read "no response at all" as done. With the response lost the host holds
+            # no evidence of the device's status: a refusal (dev_fail) that is lost as well is a second, masked fault - not judged.
+            o.label("reset:response_lost")
         else:
             done = core.last_final_status == 0 or not d.tag  # load-image has no command and no status of its own
             if d.effect and done:
@@ -581,10 +597,12 @@ def mb_check_fault(o: Oracle, sess: MbSession, k: int, op: dict, res: Res, pre: 
         addr, data = d.region(op)
         post = core.mem.read(addr, len(data))
         o.check("F1", _is_prefix_write(pre["region"], post, data), "memory_not_prefix:" + name, "%s: device memory is not old content overwritten by a prefix of the data" % where)
-    if d.received:
-        got, want = d.received(core, op)
-        if len(core.sb_files) > pre["sb"] or name != "receive_sb_file":
-            o.check("F1", want[: len(got)] == got, "received_not_prefix:" + name, "%s: the device received %s" % (where, _short(got)))
+    if d.kind == "write" and d.has_data and d.tag:
+        # what the device took in during the data phase(s) it opened for THIS call (nothing when it never accepted the command:
+        # whatever an earlier call left in the same sink - user key of the same type, previous SB file - is not this call's doing)
+        got = b"".join(bytes(ph.received) for ph in core.in_phases[pre["in_phases"]:] if ph.tag == d.tag)
+        want = _data(op["data"])
+        o.check("F1", want[: len(got)] == got, "received_not_prefix:" + name, "%s: the device received %s" % (where, _short(got)))
     return outcome
 
 
@@ -905,14 +923,27 @@ def _resolve_fault(t: str, f: dict, units: list, writes: int):
             return dict(f)
         return {"kind": "write_fail", "n": f.get("posr", 0) % writes} if writes else None
     if "pos" in f:
-        return dict(f)
-    c = _candidates(t, f["kind"], units)
-    if not c:
-        return None
-    lo, hi = c[f.get("posr", 0) % len(c)]
-    out = {k: v for k, v in f.items() if k not in ("posr", "subr")}
-    out["pos"] = lo + f.get("subr", 0) % (hi - lo)
-    return out
+        out = dict(f)
+    else:
+        c = _candidates(t, f["kind"], units)
+        if not c:
+            return None
+        lo, hi = c[f.get("posr", 0) % len(c)]
+        out = {k: v for k, v in f.items() if k not in ("posr", "subr")}
+        out["pos"] = lo + f.get("subr", 0) % (hi - lo)
+    return None if _forges_success(t, out, units) else out
+
+
+def _forges_success(t: str, f: dict, units: list) -> bool:
+    """A bit flip on the checksum-less SDP byte stream that turns a refusal word into the very word that means success
+    (0x128A8A13 -> 0x128A8A12) is, bit for bit, the answer of a device that completed the command: no layer can detect it."""
+    if t != "sdp_uart" or f["kind"] != "bitflip":
+        return False
+    for u in units:
+        i = f["pos"] - u["start"]
+        if 0 <= i < u["len"] and u.get("ok") is not None:
+            return u["word"] ^ ((1 << (f.get("bit", 0) & 7)) << (8 * (u["len"] - 1 - i))) == u["ok"]
+    return False
 
 
 def _all_faults(t: str, units: list, writes: int) -> list:
@@ -1319,6 +1350,65 @@ def _sdps_case(draw, tier: str):
     return {"t": "sdps", "family": family, "ops": ops, "fault": fault}
 
 
+
+# ------------------------------------------------------------------ properties are reported as the device sent them
+_PROP_FAMILIES = [None, None, "kw45b41z8", "kw47b42zb7", "mcxa156", "mcxa276", "lpc55s69", "mimxrt1176", "mcxn947", "k32w148"]
+
+
+def _prop_case():
+    dec = st.fixed_dictionaries({
+        "tag": st.one_of(st.integers(1, 0x26), st.integers(0, 0xFF)),
+        "words": st.lists(st.one_of(st.sampled_from([0, 1, 2, 0x400, 0xFFFFFFFF, 0x4B030100]), st.integers(0, 0xFFFFFFFF)), min_size=1, max_size=4),
+        "family": st.sampled_from(_PROP_FAMILIES), "mem": st.sampled_from([None, 0, 1, 9, 0x100]),
+    })
+    return st.fixed_dictionaries({"decodes": st.lists(dec, min_size=2, max_size=8)})
+
+
+def _decode(d) -> tuple:
+    from spsdk.mboot.properties import parse_property_value
+
+    try:
+        obj = parse_property_value(d["tag"], list(d["words"]), d["mem"], d["family"])
+    except Exception as exc:  # noqa: BLE001 - the words are arbitrary; what is compared is that the answer does not depend on the history
+        return ("raises", type(exc).__name__)
+    if obj is None:
+        return ("none",)
+    try:
+        text = obj.to_str()
+    except Exception as exc:  # noqa: BLE001
+        text = "to_str raises " + type(exc).__name__
+    num = None
+    if hasattr(obj, "to_int"):
+        try:
+            num = obj.to_int()
+        except Exception as exc:  # noqa: BLE001
+            num = "to_int raises " + type(exc).__name__
+    return (type(obj).__name__, obj.name, text, num)
+
+
+def run_properties(case, o: Oracle) -> None:
+    """A property word decodes to the same value object whatever was decoded before (for another device family, another
+    memory, another tag), and plain integer properties carry the word itself."""
+    decs = case["decodes"]
+    first = []
+    with o.spsdk("properties", "decode"):
+        for d in decs:
+            first.append(_decode(d))
+        again = [_decode(d) for d in decs]
+    if len(first) != len(decs):
+        return
+    fams = {d["family"] for d in decs}
+    o.label("t:properties", "prop_families:%d" % len(fams))
+    if len(fams) > 1 and None in fams:
+        o.label("prop_family_and_generic")
+    o.nontrivial(len(fams) > 1)
+    o.sample({"decodes": [[d["tag"], d["family"], first[i][0]] for i, d in enumerate(decs)][:4]})
+    for i, d in enumerate(decs):
+        o.check("properties", first[i] == again[i], "depends_on_history",
+                "tag 0x%02x words %s family %s: decoded as %r, after the other decodes of this history as %r" % (d["tag"], d["words"], d["family"], first[i], again[i]))
+        if first[i][0] == "IntValue":
+            o.check("properties", first[i][3] == d["words"][0], "int_value", "tag 0x%02x word 0x%x decoded to %r" % (d["tag"], d["words"][0], first[i][3]))
+
 def parts(ctx):
     tier = ctx.tier
     return [
@@ -1328,4 +1418,5 @@ def parts(ctx):
         HypPart("sdp_uart", _sdp_case("sdp_uart", tier), run_history, {"quick": 700, "thorough": 30000}),
         HypPart("sdp_hid", _sdp_case("sdp_hid", tier), run_history, {"quick": 700, "thorough": 30000}),
         HypPart("sdps", _sdps_case(tier), run_history, {"quick": 200, "thorough": 8000}),
+        HypPart("properties", _prop_case(), run_properties, {"quick": 600, "thorough": 20000}, max_shards=4),
     ]
